@@ -11,7 +11,8 @@
     correspondence on recorded runs, see tools/props/C05.py).
     External numerics (oracles, never axioms): scipy root (hybr) returns a zero of `matching`;
     root_scalar; solve_ivp inside solveHydroShock / _shooting; maxAl. *)
-From Coq Require Import Reals Lra QArith.
+From Coq Require Import Reals Lra QArith String List.
+Import ListNotations.
 From WG Require Import Lib.NumpySem Lib.HydroShock Model.FindVwLTE.
 From GenC05 Require Import HydroLTE LteFacts.
 Local Open Scope R_scope.
@@ -331,6 +332,25 @@ Theorem template_alpha_forms : forall te vm vp,
   t_alpha_shooting te vm vp = t_alpha_initial te vm vp.
 Proof. exact alpha_forms_agree. Qed.
 Print Assumptions template_alpha_forms.
+
+(** one source for the nucleation temperature: outside __init__ every method of Hydrodynamics
+    and of the template class reads it as self.Tnucl (the copy taken when the solver was
+    built) -- in particular findvwLTE with its closures, findMatching, solveHydroShock and
+    matchDeflagOrHyb agree on the temperature they shoot for, whatever happens to the model
+    object afterwards.  The lists are def-use facts regenerated from the AST on every run. *)
+Theorem nucleation_temperature_single_source :
+  tnucl_foreign_reads = nil /\
+  (forall m, In m ["Hydrodynamics.findvwLTE"; "Hydrodynamics.findMatching";
+                   "Hydrodynamics.solveHydroShock"; "Hydrodynamics.matchDeflagOrHyb"]%string ->
+             exists n, In (m, S n) tnucl_own_reads).
+Proof.
+  split; [reflexivity|].
+  intros m H. cbn in H.
+  repeat (destruct H as [H|H]; [subst m; eexists; unfold tnucl_own_reads; cbn;
+                                 repeat (first [left; reflexivity | right])|]).
+  contradiction.
+Qed.
+Print Assumptions nucleation_temperature_single_source.
 
 (** general model: decision logic of Hydrodynamics.findvwLTE, offsets taken from the source *)
 Notation lte := (findvwLTE lte_epsJ lte_epsShock).
